@@ -108,6 +108,49 @@ theorem enumerated_match_partial (p : Pat) (cfg : Cfg) (evs : List Event) (i : N
   rw [← matchesOf_strip (lastPlain_of_B hl)] at hm0
   exact match_genuine p.strip cfg evs (strip_inFragment p) hs m0 hm0
 
+/-! The full-strength statement over everything the model mirrors,
+
+    theorem match_genuine_K_all : p.modelled → Sorted evs → ∀ m ∈ matchesOfK p cfg evs, GenuineK p evs m = true
+
+is **false** of the code (and of the model that mirrors it) on two pattern shapes — known findings
+C01-enum-later-ref (guard `Pat.laterRefsKleene`) and C01-late-selfref-all (guard `Pat.lateSelfRef`), both confirmed
+on the real code through the API and through VPL text. Proved: `match_genuine_K` (first fragment),
+`enumerated_match_partial` (enumerated step), and the two counterexamples below. -/
+
+set_option linter.unusedSimpArgs false in
+/-- **C01-enum-later-ref**: `A as a -> all B where x > b.x as b -> C where x < b.x as c` on B.x = 5, 9, C.x = 7.
+The completed run's match `[A, B5, B9, C7]` is a genuine occurrence of the pattern without the postponed filter
+(C's filter was checked against b = B9: 7 < 9), `enumerate_with_filter` reports the combination `{B5}` with
+captures b = B5, c = C7 — which no reading of the stack makes genuine (7 < 5 is false). -/
+theorem enum_later_ref_counterexample :
+    c01EnumPat.laterRefsKleene = true ∧ Genuine c01EnumPat.strip c01EnumEvs c01EnumBase = true ∧
+    c01EnumBad ∈ expand c01EnumPat {} c01EnumBase ∧ GenuineK c01EnumPat c01EnumEvs c01EnumBad = false := by
+  refine ⟨by decide, ?_, by decide, ?_⟩
+  · simp [Genuine, Pat.strip, Step.strip, c01EnumPat, c01EnumEvs, c01EnumBase, explains, stepOk, Step.postponed,
+      selfRef, evalPred, capsOf, Entry.binding, Event.get, cmpVals, valCompare, noNegBetween, negHit, keyOf,
+      List.isSublist, List.lookup] <;> decide
+  · simp [GenuineK, GenuineCore, candidates, subseqs, groupOf, capsEquiv, Pat.deferredStep, firstKleene,
+      c01EnumPat, c01EnumEvs, c01EnumBad, c01EnumBase, explains, stepOk, Step.postponed,
+      selfRef, evalPred, capsOf, Entry.binding, Event.get, cmpVals, valCompare, noNegBetween, negHit, keyOf,
+      List.isSublist, List.lookup] <;> decide
+
+set_option linter.unusedSimpArgs false in
+/-- **C01-late-selfref-all**: `A as a -> all B as b -> all C where x > c.x as c -> D as d` on C.x = 5, 3.
+The engine emits, for this pattern, exactly what it emits for the pattern without C's filter (the capture was
+created by `all B` without a deferred predicate, so the filter is never evaluated); the match
+`[A, B, C5, C3, D]` is genuine for that pattern and not for the written one (3 > 5 is false). -/
+theorem late_selfref_counterexample :
+    c01LatePat.lateSelfRef = true ∧
+    (∀ cfg evs, matchesOf c01LatePat.strip cfg evs = matchesOf c01LatePat cfg evs) ∧
+    Genuine c01LatePat.strip c01LateEvs c01LateMatch = true ∧ Genuine c01LatePat c01LateEvs c01LateMatch = false := by
+  refine ⟨by decide, fun cfg evs => matchesOf_strip (lastPlain_of_B (by decide)) cfg evs, ?_, ?_⟩
+  · simp [Genuine, Pat.strip, Step.strip, c01LatePat, c01LateEvs, c01LateMatch, explains, stepOk, Step.postponed,
+      selfRef, evalPred, capsOf, Entry.binding, Event.get, cmpVals, valCompare, noNegBetween, negHit, keyOf,
+      List.isSublist, List.lookup] <;> decide
+  · simp [Genuine, c01LatePat, c01LateEvs, c01LateMatch, explains, stepOk, Step.postponed,
+      selfRef, evalPred, capsOf, Entry.binding, Event.get, cmpVals, valCompare, noNegBetween, negHit, keyOf,
+      List.isSublist, List.lookup] <;> decide
+
 /-- what `Genuine` says, clause by clause. -/
 theorem genuine_spec (p : Pat) (evs : List Event) (m : Match) (h : Genuine p evs m = true) :
     (m.stack.map (·.ev)).Sublist evs
